@@ -1520,6 +1520,9 @@ func (g *Gen) loopHead(b *ssa.BasicBlock, k int, li *loopInfo) {
 		}
 	}
 	env := g.curEnv()
+	if env.old == nil {
+		env.oldEntry = true // old(e) in an invariant: e in the function's entry state
+	}
 	for _, inv := range lc.Inv {
 		g.assume(g.curR, g.transBool(inv.E, env))
 	}
@@ -1634,6 +1637,10 @@ func (g *Gen) contractEnv() *TEnv {
 
 func (g *Gen) loopEnv(h, pred *ssa.BasicBlock) *TEnv {
 	env := g.curEnv()
+	// old(e) in an invariant is e in the function's entry state (heap and ghost state included)
+	if env.old == nil {
+		env.oldEntry = true
+	}
 	for _, in := range h.Instrs {
 		phi, ok := in.(*ssa.Phi)
 		if !ok {
